@@ -325,3 +325,181 @@ def reaching_values(mod: Module, fn: ast.AST, node: ast.AST, name: str) -> list[
             break
         child = p
     return found
+
+
+# =========================================================================== helpers of rules (r) (s) (t)
+# compiled regular expressions as constants of the analysed source (data, evaluated with the stdlib `re` of the checker)
+
+
+def _re_flags(e: Optional[ast.AST]) -> Optional[int]:
+    """value of a flags expression built from re.X / re.ASCII / ... and `|`; None when it is something else"""
+    import re as _re
+
+    if e is None:
+        return 0
+    if isinstance(e, ast.BinOp) and isinstance(e.op, ast.BitOr):
+        l, r = _re_flags(e.left), _re_flags(e.right)
+        return None if l is None or r is None else l | r
+    if isinstance(e, ast.Constant) and isinstance(e.value, int) and not isinstance(e.value, bool):
+        return e.value
+    nm = e.attr if isinstance(e, ast.Attribute) and isinstance(e.value, ast.Name) and e.value.id == "re" else e.id if isinstance(e, ast.Name) else None
+    if nm is not None and isinstance(getattr(_re, nm, None), _re.RegexFlag):
+        return int(getattr(_re, nm))
+    return None
+
+
+def const_pattern(repo: Repo, mod: Module, e: ast.AST, depth: int = 0) -> Optional[tuple[str, int]]:
+    """(pattern text, flags) when e denotes a compiled str pattern: `re.compile(<constant>[, flags])` written in place or a
+    module-level name (followed through `from X import`) bound to exactly one such call; None otherwise"""
+    if depth > 8:
+        return None
+    if isinstance(e, ast.Call) and norm(e.func) in ("re.compile", "compile") and e.args:
+        txt = fold_str(repo, mod, e.args[0])
+        fl = _re_flags(e.args[1] if len(e.args) > 1 else next((k.value for k in e.keywords if k.arg == "flags"), None))
+        return None if txt is None or fl is None else (txt, fl)
+    if isinstance(e, ast.Name):
+        vals = module_assigns(mod).get(e.id)
+        if vals:
+            got = {const_pattern(repo, mod, v, depth + 1) for v in vals}
+            return got.pop() if len(got) == 1 else None
+        imp = imported_from(repo, mod, e.id)
+        if imp is not None:
+            return const_pattern(repo, imp[0], ast.Name(id=imp[1], ctx=ast.Load()), depth + 1)
+    return None
+
+
+def pattern_first_chars(pattern: str, flags: int = 0) -> set[Optional[int]]:
+    """code points a match of the pattern can begin with, None standing for 'something that is not one literal character'
+    (a class, a repeat, ...): {92} says every match begins with a backslash"""
+    import re._parser as sre  # type: ignore[import-not-found]
+
+    def first(items) -> set[Optional[int]]:
+        for op, av in items:
+            name = str(op)
+            if name == "LITERAL":
+                return {av}
+            if name == "AT":
+                continue
+            if name == "SUBPATTERN":
+                return first(av[3])
+            if name == "BRANCH":
+                out: set[Optional[int]] = set()
+                for alt in av[1]:
+                    out |= first(alt)
+                return out
+            return {None}
+        return {None}
+
+    return first(sre.parse(pattern, flags))
+
+
+def pattern_ends_at_string_end(pattern: str, flags: int = 0) -> bool:
+    r"""the pattern's last element is \Z: match() of it is a full match"""
+    import re._parser as sre  # type: ignore[import-not-found]
+
+    items = list(sre.parse(pattern, flags))
+    return bool(items) and str(items[-1][0]) == "AT" and str(items[-1][1]) == "AT_END_STRING"
+
+
+def escape_sequence_replaces(fn: ast.AST) -> list[ast.Call]:
+    """x.replace(A, B) calls of fn where the constant A is an escape sequence: a backslash followed by at least one more character"""
+    out = []
+    for c in own_nodes(fn):
+        if isinstance(c, ast.Call) and isinstance(c.func, ast.Attribute) and c.func.attr == "replace" and len(c.args) >= 2 \
+                and isinstance(c.args[0], ast.Constant) and isinstance(c.args[0].value, (str, bytes)):
+            a = c.args[0].value
+            if len(a) >= 2 and a[:1] in ("\\", b"\\"):
+                out.append(c)
+    return out
+
+
+def backslash_led_subs(repo: Repo, mod: Module, fn: ast.AST) -> list[tuple[ast.Call, str, int]]:
+    r"""<compiled pattern>.sub/subn(repl, text) and re.sub/subn(<constant>, repl, text) calls of fn whose pattern can only match
+    at a backslash: one left-to-right substitution pass over escape sequences; (call, pattern text, flags)"""
+    out = []
+    for c in own_nodes(fn):
+        if not (isinstance(c, ast.Call) and isinstance(c.func, ast.Attribute) and c.func.attr in ("sub", "subn")):
+            continue
+        pat: Optional[tuple[str, int]]
+        if isinstance(c.func.value, ast.Name) and c.func.value.id == "re" and c.args:
+            txt = fold_str(repo, mod, c.args[0])
+            pat = (txt, _re_flags(next((k.value for k in c.keywords if k.arg == "flags"), None)) or 0) if txt is not None else const_pattern(repo, mod, c.args[0])
+        else:
+            pat = const_pattern(repo, mod, c.func.value)
+        if pat is None:
+            continue
+        try:
+            fc = pattern_first_chars(pat[0], pat[1])
+        except Exception:
+            continue
+        if fc == {92}:
+            out.append((c, pat[0], pat[1]))
+    return out
+
+
+def unicode_escape_decodes(fn: ast.AST) -> list[ast.Call]:
+    """x.decode('unicode-escape') / codecs.decode(x, 'unicode_escape') calls of fn"""
+    out = []
+    for c in own_nodes(fn):
+        if isinstance(c, ast.Call) and isinstance(c.func, ast.Attribute) and c.func.attr == "decode":
+            for a in list(c.args) + [k.value for k in c.keywords]:
+                if isinstance(a, ast.Constant) and isinstance(a.value, str) and a.value.lower().replace("_", "-") in ("unicode-escape", "raw-unicode-escape"):
+                    out.append(c)
+    return out
+
+
+def referenced_identifiers(repo: Repo) -> set[str]:
+    """every identifier the package reads, calls or imports: Name loads, attribute names, imported names, strings of __all__"""
+    out: set[str] = set()
+    for m in repo.modules.values():
+        for n in ast.walk(m.tree):
+            if isinstance(n, ast.Name) and isinstance(n.ctx, ast.Load):
+                out.add(n.id)
+            elif isinstance(n, ast.Attribute):
+                out.add(n.attr)
+            elif isinstance(n, (ast.Import, ast.ImportFrom)):
+                out |= {a.name.rsplit(".", 1)[-1] for a in n.names}
+            elif isinstance(n, ast.Assign) and any(isinstance(t, ast.Name) and t.id == "__all__" for t in n.targets):
+                out |= {x.value for x in ast.walk(n.value) if isinstance(x, ast.Constant) and isinstance(x.value, str)}
+    return out
+
+
+def backward_slice(D: Defs, e: ast.AST, limit: int = 64) -> list[ast.AST]:
+    """e and every expression bound (by any binding) to a local name e depends on, transitively: the expressions the value
+    of e was computed by inside the function"""
+    out: list[ast.AST] = []
+    seen: set[str] = set()
+    work = [e]
+    while work and len(out) < limit:
+        x = work.pop()
+        out.append(x)
+        for n in ast.walk(x):
+            if isinstance(n, ast.Name) and n.id not in seen:
+                seen.add(n.id)
+                for v in D.values(n.id):
+                    if v is not None:
+                        work.append(v)
+                for a in D.aug.get(n.id, []):
+                    work.append(a.value)
+    return out
+
+
+def enclosing_function(mod: Module, node: ast.AST) -> ast.AST:
+    """innermost def / lambda around node, the module tree when there is none"""
+    for p in mod.parents(node):
+        if isinstance(p, (ast.FunctionDef, ast.AsyncFunctionDef, ast.Lambda)):
+            return p
+    return mod.tree
+
+
+def branch_facts(mod: Module, fn: ast.AST, node: ast.AST) -> list[tuple[ast.expr, bool]]:
+    """(test, truth value) pairs known where node runs: the enclosing if-arms, plus every earlier sibling `if` one of
+    whose sides always leaves (return / raise / continue / break) - control came through the other side"""
+    facts = list(path_conds(mod, fn, node))
+    for st in earlier_siblings(mod, fn, node):
+        if isinstance(st, ast.If):
+            if always_leaves(st.body) and not always_leaves(st.orelse):
+                facts.append((st.test, False))
+            elif always_leaves(st.orelse) and not always_leaves(st.body):
+                facts.append((st.test, True))
+    return facts
